@@ -1090,6 +1090,9 @@ func c12DrainThenFlush(rep *Report) {
 func runPQStress(rep *Report, r *rand.Rand, n int) {
 	// directed: reader hand-over under a pending commit
 	for i := 0; i < 3+n/20; i++ {
+		if rep.outOfTime() {
+			break
+		}
 		seed := r.Int63()
 		cfg := pqConfigs()[i%len(pqConfigs())]
 		cfg.MaxSize = 0             // the file keeps growing: every flush links pages past the previous end of the file
@@ -1112,6 +1115,9 @@ func runPQStress(rep *Report, r *rand.Rand, n int) {
 	hung := 0
 	cfgs := pqConfigs()
 	for i := 0; i < n; i++ {
+		if rep.outOfTime() {
+			break
+		}
 		seed := r.Int63()
 		cfg := cfgs[r.Intn(len(cfgs))]
 		ne := 20 + r.Intn(120)
@@ -1158,6 +1164,9 @@ func init() {
 		}
 		cfgs := pqConfigs()
 		for i := 0; i < n; i++ {
+			if rep.outOfTime() {
+				break
+			}
 			hseed := r.Int63()
 			hr := rand.New(rand.NewSource(hseed))
 			cfg := cfgs[hr.Intn(len(cfgs))]
@@ -1208,6 +1217,9 @@ func init() {
 		c12FillLevels(rep)
 		c12DrainThenFlush(rep)
 		for i := 0; i < n; i++ {
+			if rep.outOfTime() {
+				break
+			}
 			hseed := r.Int63()
 			c12Cycle(rep, cfgs[i%len(cfgs)], hseed, cycles, (i/len(cfgs))%2 == 1, m)
 			if i < 1 {
@@ -1270,6 +1282,9 @@ func init() {
 		}
 		cfgs := pqConfigs()
 		for i := 0; i < n; i++ {
+			if rep.outOfTime() {
+				break
+			}
 			hseed := r.Int63()
 			hr := rand.New(rand.NewSource(hseed))
 			cfg := cfgs[hr.Intn(len(cfgs))]
@@ -1297,6 +1312,9 @@ func init() {
 		full := []pqengine.Config{{PageSize: 1024, MaxSize: 64 * 1024, WriteBuffer: 0}, {PageSize: 1024, MaxSize: 96 * 1024, WriteBuffer: 4096},
 			{PageSize: 1024, MaxSize: 128 * 1024, WriteBuffer: 16 * 1024}}
 		for i := 0; i < n/20+2; i++ {
+			if rep.outOfTime() {
+				break
+			}
 			c12Cycle(rep, full[i%len(full)], r.Int63(), 6, i%2 == 1, nil)
 			rep.count("full-file-cycles", 1)
 		}
